@@ -396,6 +396,9 @@ def c16(tier, seed, work):
     muts = [("MCCipherSelect", "Mutant_CipherSelect_ShortStop.cfg", "C16_StopsAtShortChunkInclExactMultiple"),
             ("MCCipherSelect", "Mutant_CipherSelect_Concat.cfg", "C16_MalformedGivesErrorNotPartial"),
             ("MCCipherSelect", "Mutant_CipherSelect_Bound.cfg", "C16_AllRecordsExpandedInOrder"),
+            ("MCCipherSelect", "Mutant_CipherSelect_Refusal.cfg", "C16_MalformedGivesErrorNotPartial"),
+            ("MCCipherSelect", "Mutant_CipherSelect_FreshBuffer.cfg", "C16_AllRecordsExpandedInOrder"),
+            ("MCCipherSelect", "Mutant_CipherSelect_FreshIndex.cfg", "C16_MalformedGivesErrorNotPartial"),
             ("DcmiPaging", "Mutant_DcmiPaging_Advance.cfg", "C16_AllRecordIDsInOrderNoDup"),
             ("DcmiPaging", "Mutant_DcmiPaging_Fallback.cfg", "C16_AllRecordIDsInOrderNoDup"),
             ("DcmiPaging", "Mutant_DcmiPaging_StopOnCount.cfg", "C16_AllRecordIDsInOrderNoDup")]
